@@ -4,7 +4,7 @@
    the implementation by the check's oracle (the file is compared with the sessions' view after
    every command); the model carries the sequence names per message, whose complement law is
    proved below. *)
-From Asimap Require Import Base.Res Spec.SetSem Model.Mbox Model.MhSeq Proofs.MboxInv Proofs.MboxStep Proofs.MboxLe Proofs.MboxExact Proofs.MboxFlags Proofs.MhSeqP.
+From Asimap Require Import Base.Res Spec.SetSem Model.Mbox Model.MhSeq Proofs.MboxInv Proofs.MboxStep Proofs.MboxLe Proofs.MboxExact Proofs.MboxFlags Proofs.MhSeqP Proofs.MhSeqWorld.
 From Coq Require Import Sorting.Sorted.
 Open Scope Z_scope.
 
@@ -54,10 +54,7 @@ Print Assumptions C13_written_sequences_exact.
 Theorem C13_mh_tools_see_flags : forall msg_keys s forget folder name k,
   StronglySorted Z.lt msg_keys -> Forall (fun x => 0 <= x) msg_keys -> In k msg_keys ->
   (In k (seq_of (written msg_keys s forget folder) name) <-> In k (seq_of s name)).
-Proof.
-  intros msg_keys s forget folder name k Hs Hp Hin.
-  exact (written_known_exact msg_keys s forget folder name k (highest_is_max msg_keys k Hs Hp Hin)).
-Qed.
+Proof. exact written_known_sorted. Qed.
 Print Assumptions C13_mh_tools_see_flags.
 
 (* a delivery the server has not taken in yet keeps what the MH tool said about it (`unseen`) *)
@@ -90,6 +87,31 @@ Theorem C13_other_sequences_untouched : forall msg_keys s recent name,
   seq_of (update_seen msg_keys s recent) name = seq_of s name.
 Proof. exact update_seen_others. Qed.
 Print Assumptions C13_other_sequences_untouched.
+
+(* the two models meet: the server's sequences are the transpose of the world model's per-message
+   sequence names; whatever the folder's file said before and whatever the server has just removed,
+   after the write an MH tool finds a message the server knows under a name exactly when the world
+   model's message carries that name *)
+Theorem C13_mh_tool_reads_world_flags : forall names msgs forget folder name m,
+  StronglySorted Z.lt (map m_key msgs) -> Forall (fun k => 0 <= k) (map m_key msgs) ->
+  In m msgs -> In name names ->
+  (In (m_key m) (seq_of (written (map m_key msgs) (seqs_of_msgs names msgs) forget folder) name)
+   <-> has_seq name m = true).
+Proof. exact mh_tool_reads_world_flags. Qed.
+Print Assumptions C13_mh_tool_reads_world_flags.
+
+Theorem C13_no_sequence_invented : forall names msgs name k,
+  In k (seq_of (seqs_of_msgs names msgs) name) -> exists m, In m msgs /\ m_key m = k /\ has_seq name m = true.
+Proof. exact transpose_only_names. Qed.
+Print Assumptions C13_no_sequence_invented.
+
+Example C13_world_file_example :
+  let msgs := [ {| m_key := 2; m_uid := 5; m_cid := 1; m_date := 0; m_seqs := ["Seen"; "flagged"] |};
+                {| m_key := 7; m_uid := 6; m_cid := 2; m_date := 0; m_seqs := ["unseen"; "Recent"] |} ]%string in
+  let w := written (map m_key msgs) (seqs_of_msgs ["Seen"; "unseen"; "flagged"; "Recent"]%string msgs) []
+                   [("unseen", [2; 9]); ("flagged", [7])]%string in
+  (seq_of w "Seen", seq_of w "unseen", seq_of w "flagged", seq_of w "Recent") = ([2], [7; 9], [2], [7]).
+Proof. vm_compute. reflexivity. Qed.
 
 (* the server knows 1-3 (3 flagged, 2 unseen); an MH tool has delivered 4 and 5 (unseen) and the server
    has just removed 5: the file keeps 4 in unseen, drops 5, lists the known messages as the server has them *)
